@@ -30,25 +30,51 @@ def site(fi, node=None):
 
 def check(m, run):
     from .. import skel_drivers as _sd3
+    # span search, multiplicity count, knot vector check and the single-function routines are decided per knot order type (OT1 - OT4, with
+    # round-off neighbours of every knot for the tolerance clause); the basis routines as exact polynomials (BF3).  The rules that read
+    # the comparison operators and loop shapes of the pinned spelling corroborate.
+    n0 = len(run.obs)
     _sd3.bf3(m, run)      # the basis-function routines equal the Cox-de Boor polynomials and their exact derivatives on every span of the enumerated rational knot vectors
+    _skel(m, run)
+    sem = run.obs[n0:]
+
+    def okp(*prefixes):
+        sel = [o for o in sem if o.rule.startswith(prefixes)]
+        return bool(sel) and all(o.ok for o in sel)
     gd1(m, run)
-    kc1(m, run)
+    with run.corroborating(okp('OT3'), 'OT3', rules=('KC1.check-structure',)):
+        kc1(m, run)
     ly4(m, run)
     al8(m, run)
-    ho1(m, run)
-    ho2(m, run)
+    with run.corroborating(okp('OT1'), 'OT1', rules=('HO1.half-open-span',)):
+        ho1(m, run)
+    with run.corroborating(okp('OT4', 'BF3'), 'OT4/BF3', rules=('HO2.half-open-support',)):
+        ho2(m, run)
     from .c09 import tol_two_sided
-    n = tol_two_sided(m, run, [m.func('helpers.find_multiplicity'), m.func('helpers.find_span_binsearch')])
+    with run.corroborating(okp('OT2', 'OT1'), 'OT1/OT2', rules=('TOL1.two-sided-tolerance',)):
+        n = tol_two_sided(m, run, [m.func('helpers.find_multiplicity'), m.func('helpers.find_span_binsearch')])
     ra.ax1_helper_calls(m, run, [fi for fi in m.funcs.values() if fi.mod in ('helpers', 'knotvector')])
-    _skel(m, run)
     run.floor('GD1.check-dominates-store', 6, 'six concrete knot vector setters')
     run.floor('KC1.check-structure', 4, 'length test, order scan, coverage, final True')
     run.floor('LY4.generate-length', 2, 'clamped / unclamped')
     kw1(m, run)
     normalize_fresh(m, run)
-    tol2(m, run)
+    with run.corroborating(okp('OT2'), 'OT2', rules=('TOL2.parameter-meets-knots-through-the-tolerance',)):
+        tol2(m, run)
     run.floor('OT1.span-is-the-half-open-interval', 2, 'linear and binary span search over the order-type box (HO1 is the syntactic fast path and may be absent)')
     run.floor('TOL1.two-sided-tolerance', 2, 'find_multiplicity, binsearch end snap')
+
+
+def multiplicity_rules(m, run):
+    """for the checks that rely on the multiplicity count (insertion and removal guards): OT2 decides it per order type incl. the
+    round-off neighbours of every knot; TOL2 corroborates"""
+    from .. import skel_drivers as _sd
+    n0 = len(run.obs)
+    _sd.c03_order(m, run)
+    sel = [o for o in run.obs[n0:] if o.rule.startswith('OT2')]
+    ok = bool(sel) and all(o.ok for o in sel)
+    with run.corroborating(ok, 'OT2', rules=('TOL2.parameter-meets-knots-through-the-tolerance',)):
+        tol2(m, run)
 
 
 def tol2(m, run):
